@@ -570,6 +570,35 @@ def _judge_source(ctx, g, gi, e, v, role, src, steps, gh, seeds) -> None:
                                              "weight of a cell depends on row+column only (a 2x2 table ~ its transpose)",
                         "nested fold": ": a container and its only item / the same items one level up share a hash",
                         "element hash of a rebuilt value": ": the value and the value it is rebuilt as ({1, 2} / (1, 2)) share a hash"}[kind])
+    if kind == "element hash of a rebuilt value":
+        # the value is rebuilt from PARTS of the element (a complex number as its two floats): the parts must determine it - every
+        # part the element's type consists of is there, or two unequal elements are rebuilt as the same value
+        X_ = ("param", g.params[0])
+        parts_, whole_ = set(), False
+
+        def walk_(t, under_attr=False):
+            nonlocal whole_
+            if t == X_:
+                if not under_attr:
+                    whole_ = True
+                return
+            if not isinstance(t, tuple):
+                return
+            if t and t[0] == "attr" and len(t) == 3 and t[1] == X_:
+                parts_.add(t[2])
+                return
+            if t and t[0] == "const":
+                return
+            for y in t:
+                walk_(y)
+        for a_ in src[2]:
+            walk_(a_)
+        from ..symx import flatten_conds as _fcx
+        is_complex = any(pol and c[0] == "call" and c[1] == ("name", "isinstance") and len(c[2]) == 2 and c[2][0] == X_
+                         and c[2][1] == ("name", "complex") for c, pol in _fcx(e.conds))
+        if is_complex and not whole_ and parts_ and not {"real", "imag"} <= parts_:
+            probs.append(f"a complex element is rebuilt from {sorted(parts_)} only: complex(nan, 1) and complex(nan, 2) are unequal but "
+                         f"rebuilt as the same value - a write of the one over the other leaves the fingerprint unchanged")
     if kind == "nested fold":
         lp = gi.loops[src[2]]
         init = lp.carried.get(src[1], (None, None))[0]
